@@ -20,7 +20,7 @@ CHECKS = {
             "Every shipped struct's encoder and decoder layout (field, tag, prefix style, value encoding, "
             "cardinality, order), every command's control field and the APDU framing are extracted from the "
             "resolved program and compared with independent tables; a change made to encoder and decoder "
-            "together (invisible to round-trip tests) is caught; the command tag is [CLASS, INSTR] big-endian, text is CP437, no decoder takes a legal field value for \"absent\". All 55 structs / 162 rows, no sampling.",
+            "together (invisible to round-trip tests) is caught; the command tag is [CLASS, INSTR] big-endian, text is CP437, no decoder takes a legal field value for \"absent\"; the hand-written date/time container is 1F0E 04 <4 BCD> 1F0F 03 <3 BCD>; a packet decoder hands back the framing call's result unchanged. All 55 structs / 162 rows, no sampling.",
             "Decides the declared layout, not the bytes each leaf encoding produces per value. " + TB),
     "C01": ("other", "5.1",
             "sibling agreement of extracted encoder/decoder tables, derives-from data flow, inverse-primitive pairing, frame-order rules over MIR",
@@ -39,7 +39,7 @@ CHECKS = {
             "decision-tree extraction: symbolic path enumeration over the two header bytes of each zvt_parse body",
             "For each of the 17 reply enums the parser's decision tree partitions all 65,536 control fields by construction; "
             "every variant-producing leaf is exactly the single point (CLASS, INSTR) of its payload type, decodes the whole "
-            "input with that type's own decoder and wraps its result; everything else and every short input is Err; table == spec.",
+            "input with that type's own decoder and wraps its result; everything else and every short input is Err; table == spec; no panic site in the parsers or the helpers they call.",
             "Complete for the property's quantifier (control fields); body contents are delegated to the payload decoder (C02/C03). " + TB),
     "C05": ("model_checking", "5.5",
             "event-graph projection of coroutine MIR + protocol-monitor product construction over all paths",
@@ -70,12 +70,12 @@ CHECKS = {
             "edge-dominance of CardInfo constructor sites; operation-set/constant/order rules on the uid variable's definitions",
             "Bank only under (!subs.is_empty() && subs[0].application_id.is_some()), MembershipCard only under subs.is_empty(); the "
             "membership id derives from tlv.uuid through exactly upper-case, [len-14..] and strip_prefix(\"000000\") under len > 14; "
-            "abort handling as C20.", TB),
+            "abort handling as C20; retry-wrapper bookkeeping (C09-a/b) and read_packet framing (C04-b/d) as necessary conditions.", TB),
     "C19": ("other", "5.19",
             "edge-dominance / cut-reachability / call-order rules and who-may-call tables over the client",
             "end_of_day is only reachable on the true edge of is_empty(transactions); every successful commit/cancel that leaves the map "
             "empty has passed end_of_day (failure propagated); clean-up (query FFFF, reverse what is reported) dominates the End-of-Day "
-            "exchange; EndOfDay is started nowhere else.", TB),
+            "exchange; EndOfDay is started nowhere else; the token map is written only by its owners, an entry is recorded only once its reservation has succeeded and removed by its own token (C07 clauses shared); End-of-Day refusals are reported (C20 arm rules).", TB),
     "C20": ("other", "5.20",
             "abort-arm region analysis: return classification and provenance of the error from the packet's result code",
             "For all nine client functions the Abort arm of the reply match never returns Ok, never continues the loop, and its error is "
@@ -121,7 +121,7 @@ CHECKS = {
             "C02 site rule on the digit decoders, checked-arithmetic shape rule, inverse-primitive and constant-set agreement rules",
             "Digits that do not fit are an error (overflow sites discharged; accumulator only through checked ops whose None becomes Err); "
             "Default is LE and BigEndian BE for all ten integral pairs; two-byte tag pages {1F, FF} agree between writer, reader and spec; "
-            "the FFFF receipt sentinel is routed to the same codec on both sides; hex/CP437 use inverse primitives, one code page, the whole input is decoded and only trailing NULs are trimmed; tag pages are decided by a 256-value case split and the writer by its symbolic output.",
+            "the FFFF receipt sentinel is routed to the same codec on both sides; hex/CP437 use inverse primitives, one code page, the whole input is decoded and only trailing NULs are trimmed; tag pages are decided by a 256-value case split, the writer by its symbolic output, and the reader refuses no tag whose bytes are all there.",
             "Value-level round trips per value are not decided. " + TB),
     "C11": ("other", "5.11",
             "expression-provenance rules on the manifest and answer construction, constant-table distinctness, protocol monitor on the upload sequence",
@@ -133,7 +133,7 @@ CHECKS = {
             "generated-program grid over the derive attribute grammar, type-checked with the real macro under the MIR driver; extracted encoder/decoder layouts compared with the generator's own description + C01-a/e, C13, C02-c rules per struct",
             "Quick: 150 generated structs (110 single-field grid points sampled by VERIF_SEED + 40 random structs up to 8 fields / depth 3); "
             "thorough: the full single-field grid (1311 structs) + 300 random structs. For each, encoder layout == declared layout == decoder "
-            "layout, encoder/decoder agree, tag-loop rules, loop termination, suffix contract and control field; the generic repeated-field reader keeps an element only if it consumed input. Programs are never executed.",
+            "layout, encoder/decoder agree, tag-loop rules, loop termination, suffix contract and control field; the generic repeated-field reader keeps an element only if it consumed input, the optional-field reader is total without a tag, the integral value codecs keep their byte order (shared with C17-b). Programs are never executed.",
             "The quantifier over programs is sampled (quick) / bounded-exhaustive for single fields (thorough); value-level inverse not decided. " + TB),
 }
 
